@@ -11,7 +11,7 @@
    Transfer, loop steps, transformers), port classes with parameters, deployment / target / filter
    configurations, JobToken, CWL entities; persistent ids of the builder copy (oracle only). *)
 From Coq Require Import List NArith ZArith.
-From SF Require Import Base.Str DbCache.Model DbCache.Proofs Persist.Model Persist.Proofs Persist.WfModel Persist.WfProofs.
+From SF Require Import Base.Str DbCache.Model DbCache.Proofs Persist.Model Persist.Proofs Persist.WfModel Persist.WfProofs Persist.CfgModel Persist.CfgProofs.
 Import ListNotations.
 Local Open Scope string_scope. Local Open Scope list_scope.
 
@@ -42,6 +42,23 @@ Theorem C08_port_under_two_names_refuted :
   exists d', save_wf twice_witness (mkwdb [] [] [] []) = Some (1, d') /\
              load_wf d' 1 <> Some twice_witness /\ load_wf d' 1 <> None.
 Proof. exact twice_witness_loses. Qed.
+
+(* deployment, target (incl. LocalTarget) and filter configurations, and the binding of a ScheduleStep (its targets
+   and filters): load(save x) = x on any prior tables, and later saves never change what stored ids load to.
+   (external / lazy come back as 0 / 1 from their INTEGER columns; Python compares them equal to False / True and
+   the model keeps booleans.) *)
+Theorem C08_config_roundtrip : forall b d,
+  load_binding (snd (save_binding b d)) (fst (save_binding b d)) = Some b /\
+  (forall x, load_deploy (snd (save_deploy x d)) (fst (save_deploy x d)) = Some x) /\
+  (forall x, load_target (snd (save_target x d)) (fst (save_target x d)) = Some x) /\
+  (forall x, load_filter (snd (save_filter x d)) (fst (save_filter x d)) = Some x).
+Proof.
+  intros b d. split; [exact (proj1 (binding_roundtrip b d))|].
+  split; [intros x; exact (deploy_roundtrip x d)|]. split; [intros x; exact (target_roundtrip x d) | intros x; exact (filter_roundtrip x d)].
+Qed.
+Theorem C08_config_saves_keep_stored : forall b d ids x,
+  load_binding d ids = Some x -> load_binding (snd (save_binding b d)) ids = Some x.
+Proof. exact binding_kept. Qed.
 
 (* load (save t) = t: same type, tag, value and recoverable flag, for every nested token and whatever the token
    table already contains.  PARTIAL with respect to the property text: tokens only (see the header). *)
@@ -76,6 +93,7 @@ Proof. exact shared_witness_differs. Qed.
 (* non-vacuity *)
 Example C08_roundtrip_example :
   let t := PList "0" [PTok "streamflow.core.workflow.Token" "0.0" (JObj [("a", JArr [JNum 1; JNull])]) true;
+                      PJob "0" true "/s/0" 1 [JNull; JStr "/o"; JNull] ["in"] [PTok "streamflow.core.workflow.Token" "0" (JNum 3) false];
                       PObj "0.1" ["k"; "z"] [PTerm 4; PList "0.1" [PIter "0.1.2"]]] in
   wf t /\ height t = 4 /\
   load (height t) (snd (save t [mkrow "x" "9" VNull false])) (fst (save t [mkrow "x" "9" VNull false])) = Some t.
@@ -86,7 +104,10 @@ Example C08_workflow_example :
                 [mkport "p0" "Port"; mkport "p1" "JobPort"; mkport "p2" "Port"]
                 [mkstep "/sc" KScatter 4%Z [("in", "p0")] [("__size__", "p1"); ("o", "p2")];
                  mkstep "/g" (KGather 2) 0%Z [("__size__", "p1"); ("a", "p2")] [("r", "p0")];
-                 mkstep "/c" (KComb c) 2%Z [("a", "p0"); ("b", "p1")] [("a", "p2")]] in
+                 mkstep "/c" (KComb true c) 2%Z [("a", "p0"); ("b", "p1")] [("a", "p2")];
+                 mkstep "/t" (KPlain "pkg.MyTransformer") 0%Z [("x", "p2")] [("y", "p1")];
+                 mkstep "/x" (KExecute [("y", "conn")]) 1%Z [("__job__", "p1"); ("x", "p0")] [("y", "p2")];
+                 mkstep "/tr" (KJobIn "pkg.MyTransfer") 0%Z [("__job__", "p1")] [("f", "p0")]] in
   let d0 := mkwdb [mkwrow "old" JNull [] []] [mkprow "q" 1 "Port"] [] [] in
   ok_wf w = true /\ ok_db d0 = true /\
   option_map (fun r => load_wf (snd r) (fst r)) (save_wf w d0) = Some (Some w).
@@ -101,6 +122,8 @@ Proof. split; [reflexivity | exact shared_witness_deep_ok]. Qed.
 Print Assumptions C08_workflow_roundtrip_partial.
 Print Assumptions C08_builder_copy_partial.
 Print Assumptions C08_port_under_two_names_refuted.
+Print Assumptions C08_config_roundtrip.
+Print Assumptions C08_config_saves_keep_stored.
 Print Assumptions C08_token_roundtrip_partial.
 Print Assumptions C08_save_keeps_stored_records.
 Print Assumptions C08_loads_independent_partial.
